@@ -1,1 +1,825 @@
-From TT Require Import Lib.Base Model.AsyncRun Spec.C14 Corr.C14.
+(* C14 - proofs.  The model of AsynchronousDeferredRunTest on a virtual clock
+   (Model/AsyncRun.v) meets the statement (Spec/C14.v) for EVERY program: any stage
+   behaviours, any number of cleanups, any delays relative to the timeout, any
+   interrupt instant, both runner variants, all logging options, any number of
+   pre-installed observers.  Induction over the cleanup list / invariants over the
+   stage chain; no enumeration. *)
+From TT Require Import Lib.Base Model.Reactor Model.AsyncRun Spec.C14 Corr.C14 Gen.Spinnertabs.
+
+Ltac split_ands := repeat match goal with |- _ /\ _ => split end.
+
+(* ================= decidable equalities ================= *)
+Lemma cls_eqb_spec a b : cls_eqb a b = true <-> a = b.
+Proof. destruct a, b; simpl; split; congruence. Qed.
+Lemma ev_eqb_spec a b : ev_eqb a b = true <-> a = b.
+Proof. destruct a, b; simpl; split; congruence. Qed.
+Lemma log_eqb_spec a b : log_eqb a b = true <-> a = b.
+Proof. apply list_eqb_spec, pair_eqb_spec; apply Nat.eqb_eq. Qed.
+
+Lemma obs_eqb_spec a b : obs_eqb a b = true <-> a = b.
+Proof.
+  destruct a, b; unfold obs_eqb; simpl. rewrite !andb_true_iff.
+  rewrite (list_eqb_spec ev_eqb ev_eqb_spec), !bool_eqb_spec, (option_eqb_spec cls_eqb cls_eqb_spec),
+    log_eqb_spec, !Nat.eqb_eq.
+  split.
+  - intros [[[[[[[-> ->] ->] ->] ->] ->] ->] ->]; reflexivity.
+  - intro E; injection E; intros; subst; repeat split.
+Qed.
+
+(* ================= spec_okb <-> Spec ================= *)
+Lemma reports_success_iff es : reports_success es = true <-> In AddSuccess es.
+Proof.
+  unfold reports_success. rewrite existsb_exists. split.
+  - intros [x [Hin E]]. apply ev_eqb_spec in E. subst. exact Hin.
+  - intro H. exists AddSuccess. split; [exact H | reflexivity].
+Qed.
+
+Lemma one_outcome_iff es :
+  one_outcome es = true <->
+  exists x, es = [StartTest; x; StopTest] /\ In x [AddSuccess; AddError; AddFailure; AddSkip].
+Proof.
+  split.
+  - intro H.
+    destruct es as [|a [|x [|b [|c r]]]]; simpl in H; try discriminate;
+      destruct a; simpl in H; try discriminate;
+      destruct b; simpl in H; try discriminate.
+    exists x. split; [reflexivity|]. destruct x; simpl in *; try discriminate; auto.
+  - intros [x [-> Hin]]. simpl in *. intuition (subst; reflexivity).
+Qed.
+
+Lemma bool_eqb_iff a b : Bool.eqb a b = true <-> (a = true <-> b = true).
+Proof. destruct a, b; simpl; intuition congruence. Qed.
+
+Lemma cut_kind_flag p b :
+  Bool.eqb b (match cut_kind p with KInterrupt => true | KTimeout => false end) = true
+  <-> (b = true <-> cut_kind p = KInterrupt).
+Proof. rewrite bool_eqb_iff. destruct (cut_kind p); intuition congruence. Qed.
+
+Lemma spec_okb_iff p o : spec_okb p o = true <-> Spec p o.
+Proof.
+  unfold spec_okb, Spec. rewrite !andb_true_iff, log_eqb_spec, one_outcome_iff, bool_eqb_iff,
+    reports_success_iff, !andb_true_iff, !Nat.eqb_eq.
+  assert (T : (if completed p then true
+               else list_eqb ev_eqb (o_events o) [StartTest; AddError; StopTest]
+                    && Bool.eqb (o_stop o) (match cut_kind p with KInterrupt => true | KTimeout => false end)) = true
+              <-> (completed p = false ->
+                   o_events o = [StartTest; AddError; StopTest]
+                   /\ (o_stop o = true <-> cut_kind p = KInterrupt))).
+  { destruct (completed p).
+    - split; [discriminate | reflexivity].
+    - rewrite andb_true_iff, (list_eqb_spec ev_eqb ev_eqb_spec), cut_kind_flag. tauto. }
+  rewrite T. tauto.
+Qed.
+
+(* ================= stages ================= *)
+Definition noraise (st : stage) : bool := negb (stage_raises st).
+Definition exc_of (st : stage) : option cls :=
+  match s_ret st with RRaise c => Some c | RLater _ f => f | _ => None end.
+
+Lemma exc_of_none st : exc_of st = None <-> noraise st = true.
+Proof.
+  unfold exc_of, noraise, stage_raises. destruct (s_ret st) as [|c|d [c|]|]; simpl; split; congruence.
+Qed.
+
+Fixpoint count (f : stage -> bool) (l : list stage) : nat :=
+  match l with [] => 0 | x :: r => b2n (f x) + count f r end.
+
+Lemma count_app f a b : count f (a ++ b) = count f a + count f b.
+Proof. induction a; simpl; lia. Qed.
+
+Lemma count_zero f l : count f l = 0 <-> forallb (fun x => negb (f x)) l = true.
+Proof.
+  induction l as [|x r IH]; simpl; [tauto|].
+  rewrite andb_true_iff, <- IH. destruct (f x); simpl; split; try lia; intuition congruence.
+Qed.
+
+Lemma note_now c m : m_now (note_failure c m) = m_now m.
+Proof. destruct c; reflexivity. Qed.
+Lemma note_log c m : m_log (note_failure c m) = m_log m.
+Proof. destruct c; reflexivity. Qed.
+
+Lemma run_stage_done C k st m c m' :
+  run_stage C k st m = Done c m' ->
+  fires_at C (m_now m) st = Some (m_now m') /\ m_log m' = m_log m ++ [(k, m_now m)] /\ c = exc_of st
+  /\ m_excs m' = m_excs m /\ m_fails m' = m_fails m
+  /\ m_logged m' = m_logged m + b2n (s_logerr st)
+  /\ m_dropped m' = m_dropped m + b2n (s_drop st)
+  /\ m_pollers m' = m_pollers m + b2n (s_poll st).
+Proof.
+  unfold run_stage, fires_at, exc_of, start_stage. destruct (s_ret st) as [|x|d f|]; simpl.
+  - intro H; inversion H; subst; simpl; repeat split.
+  - intro H; inversion H; subst; simpl; repeat split.
+  - destruct (Nat.ltb (m_now m + d) C); intro H; inversion H; subst; simpl; repeat split.
+  - discriminate.
+Qed.
+
+Lemma run_stage_cut C k st m m' :
+  run_stage C k st m = Cut m' ->
+  fires_at C (m_now m) st = None /\ m_log m' = m_log m ++ [(k, m_now m)] /\ m_now m' = m_now m.
+Proof.
+  unfold run_stage, fires_at, start_stage. destruct (s_ret st) as [|x|d f|]; simpl; try discriminate.
+  - destruct (Nat.ltb (m_now m + d) C); intro H; inversion H; subst; simpl; repeat split.
+  - intro H; inversion H; subst; simpl; repeat split.
+Qed.
+
+Lemma expected_log_fire C t k st r t' :
+  fires_at C t st = Some t' ->
+  expected_log C t ((k, st) :: r) = ((k, t) :: fst (expected_log C t' r), snd (expected_log C t' r)).
+Proof. simpl. intros ->. destruct (expected_log C t' r); reflexivity. Qed.
+
+Lemma expected_log_cut C t k st r :
+  fires_at C t st = None -> expected_log C t ((k, st) :: r) = ([(k, t)], false).
+Proof. simpl. intros ->. reflexivity. Qed.
+
+(* ================= the cleanups: induction over the list ================= *)
+Lemma run_cleanups_spec C : forall cs last m,
+  match run_cleanups C cs last m with
+  | CDone last' m' =>
+      snd (expected_log C (m_now m) cs) = true
+      /\ m_log m' = m_log m ++ fst (expected_log C (m_now m) cs)
+      /\ (last' = None <-> last = None /\ forallb (fun ks => noraise (snd ks)) cs = true)
+      /\ m_excs m' = m_excs m /\ m_fails m' = m_fails m
+      /\ m_logged m' = m_logged m + count s_logerr (map snd cs)
+      /\ m_dropped m' = m_dropped m + count s_drop (map snd cs)
+      /\ m_pollers m' = m_pollers m + count s_poll (map snd cs)
+  | CCut m' n =>
+      snd (expected_log C (m_now m) cs) = false
+      /\ m_log m' = m_log m ++ fst (expected_log C (m_now m) cs)
+      /\ n < length cs
+  end.
+Proof.
+  induction cs as [|[k st] r IH]; intros last m.
+  - simpl. rewrite app_nil_r, !Nat.add_0_r. split_ands; tauto || reflexivity.
+  - cbn [run_cleanups]. destruct (run_stage C k st m) as [c m1|m1] eqn:E.
+    + apply run_stage_done in E as (Hf & Hl & Hc & He & Hn & H1 & H2 & H3).
+      rewrite (expected_log_fire _ _ _ _ _ _ Hf). cbn [fst snd].
+      generalize (IH (match c with Some x => Some x | None => last end) m1).
+      destruct (run_cleanups C r (match c with Some x => Some x | None => last end) m1) as [last' m'|m' n].
+      * intros (I1 & I2 & I3 & I4 & I5 & I6 & I7 & I8).
+        cbn [fst snd]. split_ands; [exact I1 | ..].
+        -- rewrite I2, Hl, <- app_assoc. reflexivity.
+        -- split.
+           ++ intro L. apply I3 in L as [L1 L2]. cbn [forallb snd].
+           destruct c as [x|]; [discriminate|]. split; [exact L1|].
+           rewrite L2, andb_true_r. apply exc_of_none. symmetry; exact Hc.
+           ++ intros [L1 L2]. cbn [forallb snd] in L2. apply andb_true_iff in L2 as [L2 L3].
+           apply I3. split; [|exact L3]. apply exc_of_none in L2. rewrite <- Hc in L2. rewrite L2. exact L1.
+        -- congruence.
+        -- congruence.
+        -- cbn [map snd count]. lia.
+        -- cbn [map snd count]. lia.
+        -- cbn [map snd count]. lia.
+      * intros (I1 & I2 & I3). cbn [fst snd]. split_ands; [exact I1 | ..].
+        -- rewrite I2, Hl, <- app_assoc. reflexivity.
+        -- simpl. lia.
+    + apply run_stage_cut in E as (Hf & Hl & _).
+      rewrite (expected_log_cut _ _ _ _ _ Hf). cbn [fst snd]. split_ands; [reflexivity | exact Hl | simpl; lia].
+Qed.
+
+(* ================= the invariant of the stage chain ================= *)
+(* ex = the stages executed so far *)
+Definition Acc (ex : list stage) (m : sim) : Prop :=
+  (m_fails m = 0 <-> forallb noraise ex = true)
+  /\ (m_fails m = 0 <-> m_excs m = [])
+  /\ m_logged m = count s_logerr ex
+  /\ m_dropped m = count s_drop ex
+  /\ m_pollers m = count s_poll ex.
+
+Lemma Acc0 : Acc [] sim0.
+Proof. unfold Acc; simpl. split; [tauto|]. split; [tauto|]. auto. Qed.
+
+Lemma forallb_snoc {A} (f : A -> bool) l x : forallb f (l ++ [x]) = forallb f l && f x.
+Proof. rewrite forallb_app. simpl. rewrite andb_true_r. reflexivity. Qed.
+
+Lemma Acc_note ex m st m' :
+  Acc ex m ->
+  m_excs m' = m_excs m -> m_fails m' = m_fails m ->
+  m_logged m' = m_logged m + b2n (s_logerr st) ->
+  m_dropped m' = m_dropped m + b2n (s_drop st) ->
+  m_pollers m' = m_pollers m + b2n (s_poll st) ->
+  Acc (ex ++ [st]) (note_failure (exc_of st) m').
+Proof.
+  intros (A1 & A2 & A3 & A4 & A5) He Hn H1 H2 H3. unfold Acc.
+  rewrite forallb_snoc, !count_app. cbn [count]. rewrite !Nat.add_0_r.
+  destruct (exc_of st) as [x|] eqn:Ex.
+  - assert (R : noraise st = false).
+    { destruct (noraise st) eqn:N; [|reflexivity]. apply exc_of_none in N. congruence. }
+    rewrite R, andb_false_r. simpl. split_ands; try lia.
+    all: split; intro HH; try discriminate HH; destruct (m_excs m'); discriminate HH.
+  - assert (R : noraise st = true) by (apply exc_of_none; exact Ex).
+    rewrite R, andb_true_r. simpl. rewrite He, Hn. split_ands; try tauto; lia.
+Qed.
+
+Lemma stage_step C k st ex m :
+  Acc ex m ->
+  match run_stage C k st m with
+  | Done c m' =>
+      fires_at C (m_now m) st = Some (m_now m') /\ m_log m' = m_log m ++ [(k, m_now m)]
+      /\ c = exc_of st /\ Acc (ex ++ [st]) (note_failure c m')
+  | Cut m' => fires_at C (m_now m) st = None /\ m_log m' = m_log m ++ [(k, m_now m)]
+  end.
+Proof.
+  intro A. destruct (run_stage C k st m) as [c m'|m'] eqn:E.
+  - apply run_stage_done in E as (Hf & Hl & Hc & He & Hn & H1 & H2 & H3).
+    split_ands; try assumption. subst c. eapply Acc_note; eassumption.
+  - apply run_stage_cut in E as (Hf & Hl & _). split; assumption.
+Qed.
+
+Definition cleanup_plan (p : program) : list (nat * stage) := rev (number_from 0 (i_cleanups p)).
+
+Lemma forallb_map {A B} (f : B -> bool) (g : A -> B) l : forallb f (map g l) = forallb (fun x => f (g x)) l.
+Proof. induction l; simpl; congruence. Qed.
+
+Lemma clean_up_spec C p ex m :
+  Acc ex m ->
+  match clean_up C p m with
+  | Completed m' =>
+      snd (expected_log C (m_now m) (cleanup_plan p)) = true
+      /\ m_log m' = m_log m ++ fst (expected_log C (m_now m) (cleanup_plan p))
+      /\ Acc (ex ++ map snd (cleanup_plan p)) m'
+  | Stopped m' n =>
+      snd (expected_log C (m_now m) (cleanup_plan p)) = false
+      /\ m_log m' = m_log m ++ fst (expected_log C (m_now m) (cleanup_plan p))
+      /\ n < length (i_cleanups p)
+  end.
+Proof.
+  intros (A1 & A2 & A3 & A4 & A5). unfold clean_up. fold (cleanup_plan p).
+  generalize (run_cleanups_spec C (cleanup_plan p) None m).
+  destruct (run_cleanups C (cleanup_plan p) None m) as [last m'|m' n].
+  - intros (I1 & I2 & I3 & I4 & I5 & I6 & I7 & I8). split_ands.
+    + exact I1.
+    + rewrite note_log. exact I2.
+    + unfold Acc. rewrite forallb_app, !count_app, forallb_map.
+      destruct last as [x|]; simpl.
+      * assert (R : forallb (fun ks => noraise (snd ks)) (cleanup_plan p) = false).
+        { destruct (forallb (fun ks => noraise (snd ks)) (cleanup_plan p)) eqn:F; [|reflexivity].
+          destruct I3 as [_ I3]. discriminate I3. split; reflexivity. }
+        rewrite R, andb_false_r. split_ands; try lia.
+        all: split; intro HH; try discriminate HH; destruct (m_excs m'); discriminate HH.
+      * assert (R : forallb (fun ks => noraise (snd ks)) (cleanup_plan p) = true).
+        { apply I3. reflexivity. }
+        rewrite R, andb_true_r, I4, I5. split_ands; try tauto; lia.
+  - intros (I1 & I2 & I3). split_ands; try assumption.
+    unfold cleanup_plan in I3. rewrite rev_length in I3.
+    assert (L : forall k l, length (number_from k l) = length l).
+    { intros k l; revert k; induction l; intro k; simpl; [reflexivity | rewrite IHl; reflexivity]. }
+    rewrite L in I3. exact I3.
+Qed.
+
+(* ================= _run_deferred ================= *)
+Lemma plan_failed_setup p :
+  noraise (i_setup p) = false -> plan p = (id_setup, i_setup p) :: cleanup_plan p.
+Proof. unfold plan, noraise, cleanup_plan. destruct (stage_raises (i_setup p)); [reflexivity | discriminate]. Qed.
+
+Lemma plan_good_setup p :
+  noraise (i_setup p) = true ->
+  plan p = (id_setup, i_setup p) :: (id_body, i_body p) :: (id_teardown, i_teardown p) :: cleanup_plan p.
+Proof. unfold plan, noraise, cleanup_plan. destruct (stage_raises (i_setup p)); [discriminate | reflexivity]. Qed.
+
+Lemma run_deferred_spec C p :
+  match run_deferred C p with
+  | Completed m => expected_log C 0 (plan p) = (m_log m, true) /\ Acc (map snd (plan p)) m
+  | Stopped m n => expected_log C 0 (plan p) = (m_log m, false) /\ n <= length (i_cleanups p)
+  end.
+Proof.
+  unfold run_deferred.
+  generalize (stage_step C id_setup (i_setup p) [] sim0 Acc0).
+  destruct (run_stage C id_setup (i_setup p) sim0) as [c m1|m1].
+  2:{ intros [Hf Hl]. split; [|lia].
+      assert (E : exists r, plan p = (id_setup, i_setup p) :: r) by (unfold plan; eauto).
+      destruct E as [r ->]. rewrite (expected_log_cut _ _ _ _ _ Hf), Hl. reflexivity. }
+  intros (Hf1 & Hl1 & Hc1 & A1). cbn [app] in A1.
+  destruct c as [x|].
+  - (* set_up_done: failed setUp, straight to the cleanups *)
+    assert (N : noraise (i_setup p) = false).
+    { destruct (noraise (i_setup p)) eqn:N; [|reflexivity]. apply exc_of_none in N. congruence. }
+    rewrite (plan_failed_setup p N), (expected_log_fire _ _ _ _ _ _ Hf1).
+    generalize (clean_up_spec C p _ _ A1). rewrite note_now, note_log.
+    destruct (clean_up C p (note_failure (Some x) m1)) as [m'|m' n].
+    + intros (I1 & I2 & I3). rewrite I1 at 1. cbn [fst snd map]. split; [|exact I3].
+      rewrite I2, Hl1. reflexivity.
+    + intros (I1 & I2 & I3). rewrite I1 at 1. cbn [fst snd]. split; [|lia].
+      rewrite I2, Hl1. reflexivity.
+  - assert (N : noraise (i_setup p) = true) by (apply exc_of_none; congruence).
+    rewrite (plan_good_setup p N), (expected_log_fire _ _ _ _ _ _ Hf1).
+    cbn [note_failure] in A1.
+    generalize (stage_step C id_body (i_body p) _ m1 A1).
+    destruct (run_stage C id_body (i_body p) m1) as [c2 m2|m2].
+    2:{ intros [Hf Hl]. split; [|lia].
+        rewrite (expected_log_cut _ _ _ _ _ Hf). cbn [fst snd]. rewrite Hl, Hl1. reflexivity. }
+    intros (Hf2 & Hl2 & Hc2 & A2). cbn [app] in A2.
+    rewrite (expected_log_fire _ _ _ _ _ _ Hf2). cbn [fst snd].
+    generalize (stage_step C id_teardown (i_teardown p) _ _ A2). rewrite note_now, note_log.
+    destruct (run_stage C id_teardown (i_teardown p) (note_failure c2 m2)) as [c3 m3|m3].
+    2:{ intros [Hf Hl]. split; [|lia].
+        rewrite (expected_log_cut _ _ _ _ _ Hf). cbn [fst snd]. rewrite Hl, Hl2, Hl1. reflexivity. }
+    intros (Hf3 & Hl3 & Hc3 & A3). cbn [app] in A3.
+    rewrite (expected_log_fire _ _ _ _ _ _ Hf3). cbn [fst snd].
+    generalize (clean_up_spec C p _ _ A3). rewrite note_now, note_log.
+    destruct (clean_up C p (note_failure c3 m3)) as [m'|m' n].
+    + intros (I1 & I2 & I3). rewrite I1 at 1. cbn [fst snd map]. split; [|exact I3].
+      rewrite I2, Hl3, Hl2, Hl1. reflexivity.
+    + intros (I1 & I2 & I3). rewrite I1 at 1. cbn [fst snd]. split; [|lia].
+      rewrite I2, Hl3, Hl2, Hl1. reflexivity.
+Qed.
+
+(* ================= choosing the reported exception (runtest.py:108-117) ================= *)
+Lemma rev_nil_inv {A} (l : list A) : rev l = [] -> l = [].
+Proof. intro H. rewrite <- (rev_involutive l), H. reflexivity. Qed.
+
+Lemma pick_nil_iff l : pick l = None <-> l = [].
+Proof.
+  unfold pick. split.
+  - destruct (rev l) eqn:E; [intros _; apply rev_nil_inv; exact E | discriminate].
+  - intros ->. reflexivity.
+Qed.
+
+Lemma ev_of_outcome c : is_outcome (ev_of c) = true.
+Proof. destruct c; reflexivity. Qed.
+Lemma ev_of_not_success c : ev_eqb AddSuccess (ev_of c) = false.
+Proof. destruct c; reflexivity. Qed.
+
+(* the reported exception is the last one, or an earlier one that no handler claims *)
+Lemma pick_shape l last before :
+  rev l = last :: before -> exists c, pick l = Some c /\ (c = last \/ claimed c = false).
+Proof.
+  intro E. unfold pick. rewrite E.
+  destruct (find (fun c => negb (claimed c)) (rev before)) as [c|] eqn:F.
+  - exists c. split; [reflexivity|]. right. apply find_some in F as [_ F].
+    apply negb_true_iff in F. exact F.
+  - exists last. split; [reflexivity | left; reflexivity].
+Qed.
+
+Lemma rev_ends_err l tl :
+  Forall (eq CErr) tl -> exists before, rev (l ++ CErr :: tl) = CErr :: before.
+Proof.
+  intro F. rewrite rev_app_distr. cbn [rev].
+  destruct (rev tl) as [|y r] eqn:E.
+  - simpl. eauto.
+  - assert (In y tl) by (apply in_rev; rewrite E; left; reflexivity).
+    rewrite Forall_forall in F. rewrite <- (F y H). simpl. eauto.
+Qed.
+
+Lemma pick_ends_err l tl :
+  Forall (eq CErr) tl -> exists c, pick (l ++ CErr :: tl) = Some c /\ ev_of c = AddError.
+Proof.
+  intro F. destruct (rev_ends_err l tl F) as [before E].
+  destruct (pick_shape _ _ _ E) as [c [P [L|U]]]; exists c; (split; [exact P|]).
+  - rewrite L. reflexivity.
+  - destruct c; simpl in U; try discriminate; reflexivity.
+Qed.
+
+(* ================= _run_core: the verdict ================= *)
+Definition successful (p : program) (ok : bool) (u : nat) (m : sim) : bool :=
+  ok && Nat.eqb (m_logged m) 0 && Nat.eqb u 0 && negb (dirty p m).
+Definition final_excs (p : program) (u : nat) (m : sim) : list cls :=
+  m_excs m ++ repeat_err (m_logged m) ++ repeat_err u ++ (if dirty p m then [CErr] else []).
+
+Lemma finish_events p ok u stop n m :
+  r_events (finish p ok u stop n m) =
+  [StartTest] ++ (if successful p ok u m then [AddSuccess] else [])
+    ++ (match pick (final_excs p u m) with Some c => [ev_of c] | None => [] end) ++ [StopTest].
+Proof. reflexivity. Qed.
+
+Lemma repeat_err_nil n : repeat_err n = [] <-> n = 0.
+Proof. destruct n; simpl; split; try reflexivity; discriminate. Qed.
+
+Lemma final_excs_nil p u m :
+  final_excs p u m = [] <-> m_excs m = [] /\ m_logged m = 0 /\ u = 0 /\ dirty p m = false.
+Proof.
+  unfold final_excs. split.
+  - intro H. apply app_eq_nil in H as [H1 H]. apply app_eq_nil in H as [H2 H].
+    apply app_eq_nil in H as [H3 H4]. apply repeat_err_nil in H2, H3.
+    split_ands; try assumption. destruct (dirty p m); [discriminate | reflexivity].
+  - intros (-> & -> & -> & ->). reflexivity.
+Qed.
+
+Lemma successful_iff p u m :
+  (m_fails m = 0 <-> m_excs m = []) ->
+  (successful p (Nat.eqb (m_fails m) 0) u m = true <-> final_excs p u m = []).
+Proof.
+  intro I. rewrite final_excs_nil. unfold successful.
+  rewrite !andb_true_iff, !Nat.eqb_eq, negb_true_iff. tauto.
+Qed.
+
+Lemma events_completed p u stop n m :
+  (m_fails m = 0 <-> m_excs m = []) ->
+  let ok := Nat.eqb (m_fails m) 0 in
+  (successful p ok u m = true /\ r_events (finish p ok u stop n m) = [StartTest; AddSuccess; StopTest])
+  \/ (successful p ok u m = false
+      /\ exists c, r_events (finish p ok u stop n m) = [StartTest; ev_of c; StopTest]).
+Proof.
+  intros I ok. rewrite finish_events. destruct (successful p ok u m) eqn:S.
+  - left. split; [reflexivity|]. apply (successful_iff p u m I) in S. rewrite S. reflexivity.
+  - right. split; [reflexivity|]. destruct (pick (final_excs p u m)) as [c|] eqn:P.
+    + exists c. reflexivity.
+    + apply pick_nil_iff in P. apply (successful_iff p u m I) in P. unfold ok in S. congruence.
+Qed.
+
+Lemma events_stopped p C stop n m :
+  r_events (finish p false 0 stop n (after_cut C m)) = [StartTest; AddError; StopTest].
+Proof.
+  rewrite finish_events. unfold successful, final_excs. cbn [andb after_cut m_excs m_logged].
+  rewrite <- app_assoc. cbn [app].
+  destruct (pick_ends_err (m_excs m)
+              (repeat_err (m_logged m) ++ repeat_err 0 ++ (if dirty p (after_cut C m) then [CErr] else [])))
+    as [c [P E]].
+  - apply Forall_app. split; [|apply Forall_app; split].
+    + unfold repeat_err. apply Forall_forall. intros x Hx. apply repeat_spec in Hx. congruence.
+    + constructor.
+    + destruct (dirty p (after_cut C m)); repeat constructor.
+  - fold (after_cut C m). rewrite P, E. reflexivity.
+Qed.
+
+Lemma dirty_false p m : dirty p m = false <-> junk_of p m = [] /\ m_pollers m = 0.
+Proof.
+  unfold dirty. destruct (junk_of p m).
+  - rewrite Nat.ltb_ge. split; [intro; split; [reflexivity | lia] | intros [_ ->]; lia].
+  - split; [discriminate | intros [H _]; discriminate].
+Qed.
+
+Lemma all_clean_list l :
+  forallb (fun ks : nat * stage => clean_stage (snd ks)) l = true <->
+  forallb noraise (map snd l) = true /\ count s_logerr (map snd l) = 0
+  /\ count s_drop (map snd l) = 0 /\ count s_poll (map snd l) = 0.
+Proof.
+  induction l as [|[k st] r IH]; cbn [forallb map snd count].
+  - intuition reflexivity.
+  - rewrite !andb_true_iff, IH. unfold clean_stage, noraise.
+    destruct (stage_raises st), (s_logerr st), (s_drop st), (s_poll st); simpl;
+      intuition (try discriminate; try lia).
+Qed.
+
+(* ================= Spinner._clean empties the reactor ================= *)
+Lemma spinner_clean_from (l : list (dcall bool)) : forall q,
+  (forall c, In c q -> In c l) -> fold_left (fun q' c => remove_seq (dc_seq c) q') l q = [].
+Proof.
+  induction l as [|a l IH]; intros q H; simpl.
+  - destruct q as [|c q]; [reflexivity | destruct (H c); left; reflexivity].
+  - apply IH. intros c Hc. unfold remove_seq in Hc. apply filter_In in Hc as [Hc Hs].
+    destruct (H c Hc) as [<-|Hl]; [|exact Hl].
+    rewrite Nat.eqb_refl in Hs. discriminate.
+Qed.
+
+Lemma spinner_clean_nil q : spinner_clean q = [].
+Proof. unfold spinner_clean. apply spinner_clean_from. auto. Qed.
+
+(* ================= the log observers are restored ================= *)
+Lemma existsb_eqb_false x l : ~ In x l -> existsb (Nat.eqb x) l = false.
+Proof.
+  induction l as [|a l IH]; simpl; intro H; [reflexivity|].
+  destruct (Nat.eqb x a) eqn:E.
+  - apply Nat.eqb_eq in E. exfalso. apply H. left. symmetry. exact E.
+  - apply IH. tauto.
+Qed.
+
+Lemma add_obs_fresh x l : ~ In x l -> add_obs x l = l ++ [x].
+Proof. intro H. unfold add_obs. rewrite (existsb_eqb_false x l H). reflexivity. Qed.
+
+Lemma remove_obs_last x l : ~ In x l -> remove_obs x (l ++ [x]) = l.
+Proof.
+  induction l as [|a l IH]; simpl; intro H.
+  - rewrite Nat.eqb_refl. reflexivity.
+  - destruct (Nat.eqb x a) eqn:E.
+    + apply Nat.eqb_eq in E. exfalso. apply H. left. symmetry. exact E.
+    + rewrite IH; tauto.
+Qed.
+
+Lemma with_observer_undone x l :
+  ~ In x l -> clean_fixture (snd (with_observer x l)) (fst (with_observer x l)) = l.
+Proof.
+  intro H. unfold with_observer, clean_fixture. cbn [fst snd rev app fold_left apply_undo].
+  rewrite (add_obs_fresh x l H). apply remove_obs_last. exact H.
+Qed.
+
+Lemma no_observers_fold xs : forall l us,
+  fold_left (fun acc x => (remove_obs x (fst acc), snd acc ++ [UAdd x])) xs (l, us)
+  = (fold_left (fun l x => remove_obs x l) xs l, us ++ map UAdd xs).
+Proof.
+  induction xs as [|x xs IH]; intros l us; simpl.
+  - rewrite app_nil_r. reflexivity.
+  - rewrite IH, <- app_assoc. reflexivity.
+Qed.
+
+Lemma remove_all_rev r : NoDup r -> fold_left (fun l x => remove_obs x l) r (rev r) = [].
+Proof.
+  induction r as [|a r IH]; intro N; [reflexivity|].
+  inversion N as [|? ? Ha Nr]; subst. cbn [rev fold_left].
+  rewrite remove_obs_last; [apply IH; exact Nr | rewrite <- in_rev; exact Ha].
+Qed.
+
+Lemma no_observers_spec l : NoDup l -> no_observers l = ([], map UAdd (rev l)).
+Proof.
+  intro N. unfold no_observers. rewrite no_observers_fold. cbn [app]. f_equal.
+  rewrite <- (rev_involutive l) at 2. apply remove_all_rev. apply NoDup_rev. exact N.
+Qed.
+
+Lemma readd_all l : forall acc, NoDup (acc ++ l) -> fold_left apply_undo (map UAdd l) acc = acc ++ l.
+Proof.
+  induction l as [|a l IH]; intros acc N; simpl.
+  - rewrite app_nil_r. reflexivity.
+  - assert (Ha : ~ In a acc).
+    { apply NoDup_remove_2 in N. intro H. apply N. apply in_or_app. left; exact H. }
+    rewrite (add_obs_fresh a acc Ha), IH.
+    + rewrite <- app_assoc. reflexivity.
+    + rewrite <- app_assoc. exact N.
+Qed.
+
+Lemma undo_all l : NoDup l -> clean_fixture (map UAdd (rev l)) [] = l.
+Proof.
+  intro N. unfold clean_fixture. rewrite <- map_rev, rev_involutive. apply (readd_all l []). exact N.
+Qed.
+
+Lemma initial_fresh p x : x < 2 -> ~ In x (initial_observers p).
+Proof. unfold initial_observers. intros H Hin. apply in_seq in Hin. lia. Qed.
+
+Lemma observers_restored p : observers_after p = initial_observers p.
+Proof.
+  unfold observers_after.
+  assert (N : NoDup (initial_observers p)) by apply seq_NoDup.
+  assert (F0 : ~ In capture_obs (initial_observers p)) by (apply initial_fresh; unfold capture_obs; lia).
+  assert (F1 : ~ In error_obs (initial_observers p)) by (apply initial_fresh; unfold error_obs; lia).
+  set (l0 := initial_observers p) in *.
+  destruct (i_suppress p), (i_store p); try rewrite (no_observers_spec l0 N);
+    cbv beta iota; unfold with_observer; cbv beta iota.
+  - replace (clean_fixture [URemove capture_obs]
+               (clean_fixture [URemove error_obs] (add_obs error_obs (add_obs capture_obs []))))
+      with (@nil nat) by reflexivity.
+    apply undo_all. exact N.
+  - replace (clean_fixture [] (clean_fixture [URemove error_obs] (add_obs error_obs [])))
+      with (@nil nat) by reflexivity.
+    apply undo_all. exact N.
+  - rewrite (add_obs_fresh capture_obs l0 F0).
+    assert (F2 : ~ In error_obs (l0 ++ [capture_obs])).
+    { intro H. apply in_app_or in H as [H|[H|[]]]; [tauto | discriminate H]. }
+    rewrite (add_obs_fresh error_obs _ F2).
+    unfold clean_fixture. cbn [rev app fold_left apply_undo].
+    rewrite (remove_obs_last error_obs _ F2). apply remove_obs_last. exact F0.
+  - rewrite (add_obs_fresh error_obs l0 F1).
+    unfold clean_fixture. cbn [rev app fold_left apply_undo]. apply remove_obs_last. exact F1.
+Qed.
+
+(* ================= the model meets the statement ================= *)
+Lemma finish_unrun p ok u stop n m : r_unrun (finish p ok u stop n m) = length (junk_of p m).
+Proof. reflexivity. Qed.
+Lemma finish_stop p ok u stop n m : r_stop (finish p ok u stop n m) = stop.
+Proof. reflexivity. Qed.
+Lemma finish_log p ok u stop n m : r_log (finish p ok u stop n m) = m_log m.
+Proof. reflexivity. Qed.
+Lemma finish_left p ok u stop n m : r_cleanups_left (finish p ok u stop n m) = n.
+Proof. reflexivity. Qed.
+Lemma finish_pending p ok u stop n m : r_pending (finish p ok u stop n m) = 0.
+Proof. unfold finish. cbn [r_pending]. rewrite spinner_clean_nil. reflexivity. Qed.
+Lemma finish_observers p ok u stop n m : r_observers (finish p ok u stop n m) = initial_observers p.
+Proof. unfold finish. cbn [r_observers]. apply observers_restored. Qed.
+
+Definition stop_flag (p : program) : bool := match cut_kind p with KInterrupt => true | KTimeout => false end.
+
+(* the three ways a run can end *)
+Lemma model_cases p :
+  (completed p = true
+   /\ o_events (model p) = [StartTest; AddSuccess; StopTest]
+   /\ all_clean p = true /\ o_unrun (model p) = 0 /\ o_stop (model p) = false
+   /\ o_cleanups_left (model p) = 0)
+  \/ (completed p = true
+      /\ (exists c, o_events (model p) = [StartTest; ev_of c; StopTest])
+      /\ all_clean p && Nat.eqb (o_unrun (model p)) 0 = false /\ o_stop (model p) = false
+      /\ o_cleanups_left (model p) = 0)
+  \/ (completed p = false
+      /\ o_events (model p) = [StartTest; AddError; StopTest]
+      /\ o_stop (model p) = stop_flag p
+      /\ o_cleanups_left (model p) <= length (i_cleanups p)).
+Proof.
+  unfold model, run. cbn [o_events o_unrun o_stop o_cleanups_left].
+  generalize (run_deferred_spec (cut_instant p) p).
+  destruct (run_deferred (cut_instant p) p) as [m|m n].
+  - intros [E A].
+    assert (Cp : completed p = true) by (unfold completed; rewrite E; reflexivity).
+    destruct A as (A1 & A2 & A3 & A4 & A5).
+    rewrite finish_unrun, finish_stop, finish_left.
+    destruct (events_completed p (m_dropped m) false 0 m A2) as [[S Ev]|[S [c Ev]]].
+    + left. split; [exact Cp|]. split; [exact Ev|].
+      unfold successful in S. rewrite !andb_true_iff, !Nat.eqb_eq, negb_true_iff in S.
+      destruct S as [[[S1 S2] S3] S4]. apply dirty_false in S4 as [S4 S5].
+      split_ands; try reflexivity.
+      * unfold all_clean. apply all_clean_list. split_ands.
+        -- apply A1. exact S1.
+        -- rewrite <- A3. exact S2.
+        -- rewrite <- A4. exact S3.
+        -- rewrite <- A5. exact S5.
+      * rewrite S4. reflexivity.
+    + right. left. split; [exact Cp|]. split; [exists c; exact Ev|]. split_ands; try reflexivity.
+      destruct (all_clean p && Nat.eqb (length (junk_of p m)) 0) eqn:X; [|reflexivity].
+      exfalso. apply andb_true_iff in X as [X1 X2].
+      apply all_clean_list in X1 as (X1 & X3 & X4 & X5). apply Nat.eqb_eq in X2.
+      apply length_zero_iff_nil in X2.
+      assert (S' : successful p (Nat.eqb (m_fails m) 0) (m_dropped m) m = true).
+      { unfold successful. rewrite !andb_true_iff, !Nat.eqb_eq, negb_true_iff. split_ands.
+        - apply A1. exact X1.
+        - rewrite A3. exact X3.
+        - rewrite A4. exact X4.
+        - apply dirty_false. split; [exact X2 | rewrite A5; exact X5]. }
+      congruence.
+  - intros [E Hn]. right. right.
+    rewrite finish_stop, finish_left.
+    split; [unfold completed; rewrite E; reflexivity|].
+    split; [apply events_stopped|]. split; [reflexivity | exact Hn].
+Qed.
+
+Lemma model_log p : o_log (model p) = fst (expected_log (cut_instant p) 0 (plan p)).
+Proof.
+  unfold model, run. cbn [o_log]. generalize (run_deferred_spec (cut_instant p) p).
+  destruct (run_deferred (cut_instant p) p) as [m|m n]; intros [E _]; rewrite E, finish_log; reflexivity.
+Qed.
+
+Lemma model_pending p : o_pending (model p) = 0.
+Proof.
+  unfold model, run. cbn [o_pending].
+  destruct (run_deferred (cut_instant p) p); apply finish_pending.
+Qed.
+
+Lemma list_eqb_refl l : list_eqb Nat.eqb l l = true.
+Proof. apply (list_eqb_spec Nat.eqb Nat.eqb_eq). reflexivity. Qed.
+
+Lemma model_observers p : o_observers_same (model p) = true.
+Proof.
+  unfold model, run. cbn [o_observers_same].
+  destruct (run_deferred (cut_instant p) p); rewrite finish_observers; apply list_eqb_refl.
+Qed.
+
+(* -------- per clause -------- *)
+(* sequencing: a stage starts at the instant its predecessor fired, and only if it fired before the cut *)
+Lemma sequencing p : o_log (model p) = fst (expected_log (cut_instant p) 0 (plan p)).
+Proof. exact (model_log p). Qed.
+
+Lemma one_outcome_holds p :
+  exists x, o_events (model p) = [StartTest; x; StopTest] /\ In x [AddSuccess; AddError; AddFailure; AddSkip].
+Proof.
+  destruct (model_cases p) as [(_ & E & _)|[(_ & [c E] & _)|(_ & E & _)]]; rewrite E.
+  - exists AddSuccess. simpl. auto.
+  - exists (ev_of c). split; [reflexivity|]. destruct c; simpl; auto.
+  - exists AddError. simpl. auto.
+Qed.
+
+Lemma success_iff p :
+  In AddSuccess (o_events (model p))
+  <-> completed p = true /\ all_clean p = true /\ o_unrun (model p) = 0.
+Proof.
+  destruct (model_cases p) as [(Cp & E & Ac & U & _)|[(Cp & [c E] & X & _)|(Cp & E & _)]]; rewrite E.
+  - split; [intros _; auto | intros _; simpl; auto].
+  - split.
+    + intros [H|[H|[H|[]]]]; try discriminate H. destruct c; discriminate H.
+    + intros (_ & Ac & U). rewrite Ac, U in X. discriminate X.
+  - split.
+    + intros [H|[H|[H|[]]]]; discriminate H.
+    + intros (Cp' & _). congruence.
+Qed.
+
+(* a timeout or an interrupt yields an error; an interrupt also asks the result to stop (and nothing else does) *)
+Lemma cut_is_error p :
+  completed p = false ->
+  o_events (model p) = [StartTest; AddError; StopTest]
+  /\ (o_stop (model p) = true <-> cut_kind p = KInterrupt).
+Proof.
+  intro Cf. destruct (model_cases p) as [(Cp & _)|[(Cp & _)|(_ & E & S & _)]]; try congruence.
+  split; [exact E|]. rewrite S. unfold stop_flag. destruct (cut_kind p); split; congruence.
+Qed.
+
+Lemma no_stop_without_interrupt p : completed p = true -> o_stop (model p) = false.
+Proof.
+  intro Ct. destruct (model_cases p) as [(_ & _ & _ & _ & S & _)|[(_ & _ & _ & S & _)|(Cp & _)]]; congruence.
+Qed.
+
+(* whatever happened: the reactor holds no delayed call, the observers are those installed before *)
+Lemma left_clean p : o_pending (model p) = 0 /\ o_observers_same (model p) = true.
+Proof. split; [apply model_pending | apply model_observers]. Qed.
+
+(* every cleanup ran when nothing cut the run short *)
+Lemma cleanups_all_run p :
+  completed p = true ->
+  o_cleanups_left (model p) = 0
+  /\ map fst (o_log (model p)) = map fst (plan p).
+Proof.
+  intro Ct. split.
+  - destruct (model_cases p) as [(_ & _ & _ & _ & _ & L)|[(_ & _ & _ & _ & L)|(Cp & _)]]; congruence.
+  - rewrite model_log. unfold completed in Ct. revert Ct. generalize 0 at 1 2. generalize (plan p).
+    induction l as [|[k st] r IH]; intros t Ct; [reflexivity|].
+    cbn [expected_log] in *. destruct (fires_at (cut_instant p) t st) as [t'|]; [|discriminate Ct].
+    specialize (IH t'). destruct (expected_log (cut_instant p) t' r) as [l b]. cbn [fst snd map] in *.
+    rewrite IH; [reflexivity | exact Ct].
+Qed.
+
+Theorem model_meets_spec p : spec_okb p (model p) = true.
+Proof.
+  apply spec_okb_iff. unfold Spec. split_ands.
+  - apply model_log.
+  - apply one_outcome_holds.
+  - apply success_iff.
+  - apply cut_is_error.
+  - apply model_pending.
+  - apply model_observers.
+Qed.
+
+Corollary model_meets_spec_wf p : wf p -> spec_okb p (model p) = true.
+Proof. intros _. apply model_meets_spec. Qed.
+
+(* ================= what the expected log says, in words ================= *)
+Lemma expected_log_first C t pl k u l : fst (expected_log C t pl) = (k, u) :: l -> u = t.
+Proof.
+  destruct pl as [|[k0 st] r]; simpl; [discriminate|].
+  destruct (fires_at C t st); [destruct (expected_log C t0 r)|]; simpl; intro H; inversion H; reflexivity.
+Qed.
+
+(* two consecutive entries: the later stage started at exactly the instant at which the earlier one fired *)
+Lemma expected_log_adjacent C : forall pl t l1 k1 t1 k2 t2 l2,
+  fst (expected_log C t pl) = l1 ++ (k1, t1) :: (k2, t2) :: l2 ->
+  exists st1, In (k1, st1) pl /\ fires_at C t1 st1 = Some t2.
+Proof.
+  induction pl as [|[k st] r IH]; intros t l1 k1 t1 k2 t2 l2 H.
+  - simpl in H. destruct l1; discriminate H.
+  - cbn [expected_log] in H. destruct (fires_at C t st) as [t'|] eqn:F.
+    + destruct (expected_log C t' r) as [l b] eqn:E. cbn [fst] in H.
+      destruct l1 as [|x l1]; cbn [app] in H; inversion H; subst.
+      * exists st. split; [left; reflexivity|].
+        assert (t2 = t').
+        { apply (expected_log_first C t' r k2 t2 l2). rewrite E. symmetry. assumption. }
+        subst. exact F.
+      * destruct (IH t' l1 k1 t1 k2 t2 l2) as [st1 [Hin Hf]]; [rewrite E; assumption|].
+        exists st1. split; [right; exact Hin | exact Hf].
+    + cbn [fst] in H. destruct l1 as [|x [|y l1]]; discriminate H.
+Qed.
+
+(* a stage that fired did so at or after its start, strictly before the cut when it was asynchronous *)
+Lemma fires_at_bounds C t st t' :
+  fires_at C t st = Some t' ->
+  t <= t' /\ (forall d f, s_ret st = RLater d f -> t' = t + d /\ t' < C).
+Proof.
+  unfold fires_at. destruct (s_ret st) as [|c|d f|].
+  - intro H; inversion H; subst. split; [lia | discriminate].
+  - intro H; inversion H; subst. split; [lia | discriminate].
+  - destruct (Nat.ltb (t + d) C) eqn:L; [|discriminate]. apply Nat.ltb_lt in L.
+    intro H; inversion H; subst. split; [lia|]. intros d' f' E. inversion E; subst. split; [reflexivity | exact L].
+  - discriminate.
+Qed.
+
+(* the stages that ran are an initial segment of the plan *)
+Lemma expected_log_prefix C : forall pl t,
+  exists rest, map fst pl = map fst (fst (expected_log C t pl)) ++ rest.
+Proof.
+  induction pl as [|[k st] r IH]; intro t.
+  - exists []. reflexivity.
+  - cbn [expected_log]. destruct (fires_at C t st) as [t'|].
+    + destruct (IH t') as [rest E]. destruct (expected_log C t' r) as [l b]. cbn [fst map] in *.
+      exists rest. rewrite E. reflexivity.
+    + exists (map fst r). reflexivity.
+Qed.
+
+Lemma number_from_ids l : forall k, map fst (number_from k l) = map id_cleanup (seq k (length l)).
+Proof. induction l as [|s r IH]; intro k; simpl; [reflexivity | rewrite IH; reflexivity]. Qed.
+
+(* setUp, then the test and tearDown unless setUp failed, then the cleanups: last registered first *)
+Lemma plan_ids p :
+  map fst (plan p) =
+  id_setup :: (if stage_raises (i_setup p) then [] else [id_body; id_teardown])
+  ++ rev (map id_cleanup (seq 0 (length (i_cleanups p)))).
+Proof.
+  unfold plan. cbn [map fst]. rewrite map_app, map_rev, number_from_ids.
+  destruct (stage_raises (i_setup p)); reflexivity.
+Qed.
+
+Lemma sequencing_words p :
+  (* the stages that ran are an initial segment of setUp, test, tearDown, cleanups in reverse *)
+  (exists rest, map fst (plan p) = map fst (o_log (model p)) ++ rest)
+  (* the first one starts at instant 0 *)
+  /\ (forall k u l, o_log (model p) = (k, u) :: l -> k = id_setup /\ u = 0)
+  (* each further one starts at exactly the instant its predecessor fired, which was before the cut *)
+  /\ (forall l1 k1 t1 k2 t2 l2, o_log (model p) = l1 ++ (k1, t1) :: (k2, t2) :: l2 ->
+      exists st1, In (k1, st1) (plan p) /\ fires_at (cut_instant p) t1 st1 = Some t2 /\ t1 <= t2).
+Proof.
+  rewrite model_log. split_ands.
+  - apply expected_log_prefix.
+  - intros k u l H. split; [|apply (expected_log_first _ _ _ _ _ _ H)].
+    unfold plan in H. cbn [expected_log] in H.
+    destruct (fires_at (cut_instant p) 0 (i_setup p)); [destruct (expected_log _ _ _)|];
+      cbn [fst] in H; inversion H; reflexivity.
+  - intros l1 k1 t1 k2 t2 l2 H.
+    destruct (expected_log_adjacent _ _ _ _ _ _ _ _ _ H) as [st1 [Hin Hf]].
+    exists st1. split_ands; try assumption. apply (fires_at_bounds _ _ _ _ Hf).
+Qed.
+
+(* ================= the two runner variants (table obligations over Gen/Spinnertabs.v) ================= *)
+Lemma tab_iterations_le : runner_iterations <= broken_runner_iterations.
+Proof. vm_compute. repeat constructor. Qed.
+Lemma tab_plain_is_spinner_default : runner_iterations = spinner_iterations.
+Proof. vm_compute. reflexivity. Qed.
+
+(* the ForBrokenTwisted variant never reports more junk than the plain one in the same situation *)
+Lemma broken_shakes_out p q m :
+  i_broken p = true -> i_broken q = false -> incl (junk_of p m) (junk_of q m).
+Proof.
+  intros Hp Hq. unfold junk_of, iterations. rewrite Hp, Hq.
+  pose proof tab_iterations_le as T.
+  destruct broken_runner_iterations, runner_iterations; try apply incl_refl.
+  - lia.
+  - intros x Hx. apply filter_In in Hx. tauto.
+Qed.
